@@ -10,7 +10,10 @@ RULE = ("filter programs drawn from a grammar over the registered methods (neste
         "let-bound constants of every literal type, all six log methods, early accept/reject) over small shared pools "
         "of AS numbers, communities, attribute codes and prefixes, so predicates hit often; each program is compiled "
         "by roto from its printed source and run on 6-12 generated routes / UPDATEs / BMP messages (c10), on UPDATE "
-        "streams through the real RIB unit (c10rib), on scripted BGP sessions through the real Processor::process (c10bgp) and on BMP sessions through the real router handler (c10bmp); a "
+        "streams through the real RIB unit (c10rib; routes with a Fresh and with an Mrt context), on scripted BGP sessions through the real Processor::process and on real "
+        "BGP sessions over loopback TCP with peers of several ASes (c10bgp) and on BMP sessions with all seven RFC 7854 message types through the real router handler "
+        "(c10bmp, with the handler's received / processed / invalid counters); nearly half of the bmp-in / bgp-in programs start with a clause on prov.peer_asn() "
+        "so that verdict and output depend on the provenance the call site hands over; a "
         "case is non-trivial when its inputs get both verdicts or at least one output entry; distinct = distinct case text")
 TRUSTED_BASE = [
     "Coq 8.16.1 kernel (coqc; coqchk in thorough); no native_compute",
@@ -18,7 +21,10 @@ TRUSTED_BASE = [
     "Rust harness engines c10/c10rib/c10bgp/c10bmp: print Roto source from the program text, compile it with roto 0.4.0 against "
     "create_runtime() through a file as the manager does (facade rotonda::verif::filter), build UPDATE / BMP bytes, call the "
     "typed functions as the units do, drive the real RibUnitRunner::process_update (filter installed with the guarded setter) "
-    "the real bgp Processor::process session loop and the real bmp RouterHandler::process_msg, capture the gate output with a direct-update link",
+    "the real bgp Processor::process session loop and the real bmp RouterHandler::process_msg, capture the gate output with a direct-update link; "
+    "c10bmp builds Route Mirroring octets itself (common header type 6, the per-peer header octets of the test encoder, one TLV) and reads the handler's "
+    "counters from the Prometheus text of its metrics (harness reader promtext); c10bgp plays a BGP peer over loopback TCP (OPEN with or without the "
+    "4-octet capability, KEEPALIVE, UPDATEs, FIN) against the real handle_connection (hook verif_connection_filtered::start_filtered)",
     "modelled, not verified: src/roto_runtime/{runtime,types}.rs, the call sites in rib_unit/unit.rs, "
     "bmp_tcp_in/router_handler.rs, bgp_tcp_in/router_handler.rs; roto's compiler and routecore's parsers are exercised, not modelled",
 ]
@@ -29,6 +35,10 @@ ASSUMPTIONS = [
     "the bgp-in call site is driven through a scripted session (guarded hook): established session with routecore's NegotiatedConfig::dummy(), "
     "the UPDATEs of the case, then connection lost; the BGP FSM and the TCP side are not exercised",
     "contains_large_community cannot be reached from a script: create_runtime registers no way to make a LargeCommunity value",
+    "real BGP sessions (c10bgp, op A): one session per case, the peer configured by address with any AS, no timers fire within a case; the session ends "
+    "with the peer's FIN, which routecore queues behind the UPDATEs it has handed over (the loop handles them in order)",
+    "Route Mirroring is to the session state machine what a Statistics Report is (ignored while dumping / updating, invalid before Initiation and after "
+    "Termination); its TLVs are not looked at by anything in rotonda",
 ]
 
 ASNS = [65001, 65002, 65003, 64512, 174, 4200000001, 12345]
